@@ -151,7 +151,7 @@ def check_variant(case, ctx):
 
 
 # natural joins and the record* set operations read the headers at construction (C02 allows exactly that)
-HEADER_AT_CONSTRUCTION = ("join_natural", "recordcomplement", "recorddiff0", "recorddiff1", "unjoin_nokey_left", "unjoin_nokey_right")
+HEADER_AT_CONSTRUCTION = reuse.HEADER_AT_CONSTRUCTION
 
 
 # ---- histories -------------------------------------------------------------------------------------------
